@@ -15,6 +15,10 @@ cell = lambda t, k: str(t).replace('|', '/').replace('\n', ' ')[:k]
 for d in sorted(glob.glob(os.path.join(HERE, 'seeded', '*', 'meta.json'))):
   m = json.load(open(d))
   n += 1
+  if not m['detected_by']:
+    missed += 1
+    rows.append('| %s | %s | %s -- | **NOT caught** → %s |' % (m['id'], cell(m['change'], 110), m['property'], cell(m.get('not_detected', ''), 190)))
+    continue
   first = m['detected_by'].get('missed_at_first')
   missed += bool(first)
   rows.append('| %s | %s | %s %s | %s |' % (m['id'], cell(m['change'], 110), m['property'], cell(m['detected_by']['rule'], 60),
